@@ -60,6 +60,8 @@ def run(repo, rep, tier):
                       "parse+assign per ${...} occurrence, dotted-name "
                       "resolution descends by getattr")
     _tables(repo, rep)
+    from . import c01
+    L.borrow(repo, rep, "R04.4", "C01", c01.order, ("kind:case",))
     _string_and_import(repo, rep)
     _pipe(repo, rep)
     _lookup(repo, rep)
@@ -494,10 +496,12 @@ BINDERS = ("Lambda", "ListComp", "SetComp", "DictComp", "GeneratorExp",
            "NamedExpr", "FunctionDef")
 
 
-def _binders(repo, rep, rule="R04.6", handlers=True):
+def _binders(repo, rep, rule="R04.6", handlers=True, only=None):
     ci = repo.cls("chameleon.astutil.NameLookupRewriteVisitor")
     site = ci.qualname
     for b in BINDERS:
+        if only is not None and b not in only:
+            continue
         m = ci.methods.get("visit_" + b)
         if m is None and ("visit_" + b) in ci.attrs:
             alias = ci.attrs["visit_" + b]
@@ -553,6 +557,31 @@ def _binders(repo, rep, rule="R04.6", handlers=True):
                       "function body are local to it (registered before the "
                       "body is rewritten)", construct="function-locals",
                       where=L.where(m))
+        if b.endswith("Comp") or b == "GeneratorExp":
+            # the first iterable of a comprehension is evaluated in the
+            # enclosing scope: it is rewritten before the comprehension's
+            # scope (which binds the loop variables) is opened, and not
+            # again inside
+            if pushes:
+                push_line = min(p_.lineno for p_ in pushes)
+                early = [n for n in ast.walk(m.node)
+                         if isinstance(n, ast.Assign) and
+                         src(n.targets[0]).replace(" ", "").endswith(
+                             "[0].iter") and "self.visit(" in src(n.value)
+                         and n.lineno < push_line]
+                inside = [n for n in ast.walk(m.node)
+                          if isinstance(n, ast.Assign) and
+                          src(n.targets[0]).endswith(".iter") and
+                          n.lineno > push_line]
+                guarded = all(any("index > 0" in src(t_) or "index" in src(t_)
+                                  for t_, v_ in L.guards_of(n, m.node))
+                              for n in inside)
+                rep.check(bool(early) and guarded, rule, m.qualname,
+                          "the first iterable of a %s is rewritten in the "
+                          "enclosing scope ([x for x in x] reads the "
+                          "template variable x)" % b,
+                          construct="first-iterable-outside:" + b,
+                          where=L.where(m))
         if b in ("Lambda", "FunctionDef") and pushes:
             # default values belong to the enclosing scope: they are visited
             # before the lambda's scope is opened (in the new scope the
